@@ -11,6 +11,7 @@ EXPLANATION = (
     "close-time rewrite re-emits CreateLabel records; (3) rewrite_as_snapshot runs only on the `published runs are empty` arm. "
     "It does not decide equality of dumps."
     " C04.5: only node creation writes I2E records / assigns their label slot. C04.6 / C04.7 (CODEC): writer and reader of the meta page, the node-table record, the CSR segment meta page, the statistics blob and the index catalog page agree on {byte range -> field} resp. on the sequence of widths and names. C04.8: the id registries (LabelInterner.s2i / i2s, IdMap.i2e / i2l) only grow."
+    " C04.9: for every two WalRecord kinds whose replay arm calls an IdMap applier (CreateNode, AddNodeLabel, RemoveNodeLabel), WriteTxn::commit appends them in the same relative order in which it calls those appliers on the live node table, so replaying the log reproduces the state the transaction left behind."
 )
 
 MEM = "nervusdb_storage::memtable::MemTable"
@@ -23,6 +24,7 @@ def run(ctx):
     ctx.rule("C04.2", "every IdMap::apply_* that replay calls persists its effect to pages; close rewrite re-emits CreateLabel")
     ctx.rule("C04.3", "rewrite_as_snapshot is reachable only when the published runs are empty")
     ctx.rule("C04.4", "the checkpoint watermark (up_to_txid) is below every transaction id that can still be handed out")
+    log_order_rule(ctx)
 
     # ---- clause 1 ---------------------------------------------------------
     tb = ctx.body(MEM + "::tombstone_edge")
@@ -257,3 +259,55 @@ def run(ctx):
                     ctx.instance("C04.8", "%s assigns %s as a whole" % (i.split("::", 1)[1], st[1][1][-1][2]))
                     ctx.oblige(okw, "C04.8", "%s:%s-replaced" % (b.root or i, st[1][1][-1][2]), "an id registry is replaced as a whole outside construction / load", "%s:%d" % (b.file, st[3]))
     ctx.floor("C04.8", "mutating accesses to the id registries", n8, 10)
+
+
+def log_order_rule(ctx, rid="C04.9"):
+    """commit appends the node-table records in the order in which it applies them to the live node table (replay applies in log order)"""
+    from .. import tables
+    F = ctx.facts
+    ctx.rule(rid, "for every two record kinds that replay hands to an IdMap applier, commit logs them in the order in which it applies them live")
+    rb = ctx.body(REPLAY)
+    adt = ctx.adt(M.WALRECORD)
+    names = [v["name"] for v in adt["variants"]]
+    sw = tables.enum_switch(rb, M.WALRECORD, F)
+    table = {}
+    if sw:
+        for vi, tb in sw[1].items():
+            for x in tables.dominated_region(rb, tb, sw[0]):
+                c = rb.call_at(x)
+                if c is not None and c.name in M.IDMAP_APPLY:
+                    table.setdefault(names[vi], set()).add(c.name)
+    table = {v: sorted(a)[0] for v, a in table.items() if len(a) == 1}
+    ctx.floor(rid, "record kinds applied to the node table by replay", len(table), 3)
+    b = ctx.body(M.COMMIT)
+    logged = {}
+    for c in b.calls():
+        if c.name == M.WAL_APPEND:
+            v = M.wal_append_variant(b, c)
+            if v in table:
+                logged.setdefault(v, []).append(c)
+    live = {}
+    for c in b.calls():
+        if c.name in table.values():
+            live.setdefault(c.name, []).append(c)
+
+    def order(xs, ys):
+        fw = any(y.bb in b.reachable([x.bb]) for x in xs for y in ys)
+        bw = any(x.bb in b.reachable([y.bb]) for x in xs for y in ys)
+        return "before" if fw and not bw else ("after" if bw and not fw else "mixed")
+
+    n = 0
+    vs = sorted(v for v in table if v in logged and table[v] in live)
+    for i, v1 in enumerate(vs):
+        for v2 in vs[i + 1:]:
+            if table[v1] == table[v2]:
+                continue
+            n += 1
+            lo, ao = order(logged[v1], logged[v2]), order(live[table[v1]], live[table[v2]])
+            ctx.instance(rid, "commit: %s logged %s %s; %s applied %s %s" % (v1, lo, v2, table[v1].split("::")[-1], ao, table[v2].split("::")[-1]))
+            ctx.oblige(lo == ao and lo != "mixed", rid, "%s:commit:%s-vs-%s" % (rid, v1, v2),
+                       "commit logs %s %s %s but applies %s %s %s to the live node table: a transaction that stages both for one node ends in a "
+                       "different state after the log is replayed than it had before the reopen" %
+                       (v1, lo, v2, table[v1].split("::")[-1], ao, table[v2].split("::")[-1]), logged[v2][0].loc(),
+                       sample={"logged": [v1, lo, v2], "applied": [table[v1], ao, table[v2]]})
+    ctx.floor(rid, "ordered pairs of node-table record kinds", n, 3)
